@@ -1,7 +1,7 @@
 //! C15 — seeded random generators are deterministic and always structurally
 //! valid, for every worker-thread count and interleaving.
 
-use super::c17::{draw_order, draw_p, draw_seed, run_top};
+use super::c17::{draw_order, draw_order_tail, draw_p, draw_seed, run_top};
 use super::draw_sched;
 use crate::core::{Lane, Scenario, Stats, Tier, Violation};
 use crate::exec::{run_exec, Conf};
@@ -117,7 +117,7 @@ impl Lane for C15 {
         };
         let max = if rng.chance(1, 5) { max } else { max.min(24) };
         let gen = *rng.pick(&["tournament", "tournament", "recursive_tree", "erdos_renyi", "erdos_renyi"]);
-        let mut order = draw_order(rng, max);
+        let mut order = if rng.chance(1, 2) { draw_order_tail(rng, max).min(600) } else { draw_order(rng, max) };
         let mut p = draw_p(rng);
         // injected faults: inadmissible arguments (must panic)
         match rng.below(24) {
@@ -160,6 +160,10 @@ impl Lane for C15 {
                 };
                 confs.push(Conf { cpu, sched, trace: None });
             }
+        }
+        if order > 200 {
+            // one lock per arc: keep the giants to a few configurations
+            confs = confs.into_iter().step_by(6).collect();
         }
         Scenario { body, confs }
     }
